@@ -100,6 +100,11 @@ def run(ctx):
                     impl.write_files(run_.tmp, None, {"c12big.bin": big})
                     src += "*=0x%06x\n.incbin 'c12big.bin'\n.db 0x5a\n" % ({"low_rom": 0x208000, "low_rom_2": 0xA08000, "high_rom": 0xD00000}[rom])
                     s.count("with-3-record-block")
+                if rng.random() < 0.3:
+                    # characters inside a quoted string are data for every entry point (a literal TAB stays one byte)
+                    ta = {"low_rom": 0x228000, "low_rom_2": 0xA28000, "high_rom": 0xD20000}[rom]
+                    src += "*=0x%06x\n.ascii 'a\tb\t\tc  d'\ntab_end_zq:\n.dw tab_end_zq\n" % ta
+                    s.count("with-tab-in-string")
                 if rep_i == 0:
                     # blocks made of one repeated byte (padding, NOP sleds, cleared tables), alone between two positions
                     fb = {"low_rom": 0x218000, "low_rom_2": 0xA18000, "high_rom": 0xD10000}[rom]
